@@ -14,9 +14,9 @@ explicit function of the record of link `j` before it (same index; the list leng
   stamp, REG3, REG_ERR's `mark_for_recovery`, the keepalive arm) on the arrival link only, then the
   ACK / NAK fan-out, which rewrites the accounting core and the RTT tracker only (`Uplink.SameShell`);
 * `flush`   — `flush_link`: nothing or `take_batch`;
-* `hk`      — `hk_link`: `Hk.hkLink` (reconnect attempt / nothing / the alive branch) up to a grace
+* `hk`      — `hk_link`: `Hk.hkLink` (reconnect attempt, socket re-created or not / nothing / the alive branch) up to a grace
   reset before and a `last_sent` stamp after;
-* `setCfg`, `crit`, `failNext` — `cfg_link`: nothing.
+* `setCfg`, `crit`, `failNext`, `failBind` — `cfg_link`: nothing.
 
 One lemma per constructor; `step_length` puts the lengths together.  Nothing here mentions a particular
 property: `Lemmas/SelShellLatch.lean` (C13) and `Lemmas/SelShellFrame.lean` (C12) read the guard fields,
@@ -75,13 +75,13 @@ theorem flush_length (s : Sys F) (now : Nat) : (flushAllBatches s now).1.links.l
 
 /-- **`hk` event, link `j`**: grace reset (only the link probing chose), `hkLink`, a `last_sent` stamp. -/
 theorem hk_link (s : Sys F) (now j : Nat) (l : FLink F) (hl : s.links[j]? = some l) :
-    ∃ (pending g t : Option Nat),
+    ∃ (pending g t : Option Nat) (fails : Bool),
       (handleHousekeeping s now).1.links[j]? =
-        some (Hk.withSent (Hk.hkLink s.cfg.classic now pending j (Hk.graceFix g now j l)) t) := by
+        some (Hk.withSent (Hk.hkLink s.cfg.classic now pending fails j (Hk.graceFix g now j l)) t) := by
   obtain ⟨τ, h⟩ := Hk.hk_links s now
   refine ⟨(Hk.hkP1 s now).1.pending, Hk.hkGraceIdx s now, ?_⟩
   rw [h, List.getElem?_mapIdx, hl]
-  exact ⟨_, rfl⟩
+  exact ⟨_, _, rfl⟩
 
 theorem hk_length (s : Sys F) (now : Nat) : (handleHousekeeping s now).1.links.length = s.links.length :=
   (Hk.hk_step s now).2
